@@ -1,3 +1,22 @@
+// The C19 machinery of vc-synth, compiled against the synthesizer WITH the
+// experimental `aig` feature (this package must be built on its own:
+// `cargo build --release -p vc-aig`, so that the feature is not unified into
+// the other harness binaries).
+#[path = "../../vc-synth/src/c19.rs"]
+mod c19;
+#[path = "../../vc-synth/src/gate_eval.rs"]
+mod gate_eval;
+#[path = "../../vc-synth/src/ram_tpl.rs"]
+mod ram_tpl;
+#[path = "../../vc-synth/src/selftest.rs"]
+mod selftest;
+#[path = "../../vc-synth/src/synth_case.rs"]
+mod synth_case;
+#[path = "../../vc-synth/src/synth_findings.rs"]
+mod synth_findings;
+#[path = "../../vc-synth/src/wellformed.rs"]
+mod wellformed;
+
 mod c21;
 
 fn main() {
